@@ -89,7 +89,7 @@ class InstanceManager:
         metrics = dict()
 
         for key in tuple(self._instances.keys()):
-            instance = self._instances[key]
+            instance = self._instances.get(key) # another request may have swept or stopped the instance since the keys were listed
 
             if(instance == None or instance['instance'] == None or instance['instance'].session_state == None):
                 continue
